@@ -1047,9 +1047,13 @@ class Variable(CanBehaveLikeAVariable[T]):
                 self._is_false_ = not bool(sources[self._id_])
             yield OperationResult(sources, self._truth_value_is_false_(sources[self._id_]), self)
         elif self._domain_:
+            # decided now: this generator may be resumed after the variable has been evaluated in another position
+            used_as_condition = self._is_used_as_condition_
             for v in self._domain_:
                 yield OperationResult(
-                    {**sources, self._id_: HashedValue(v)}, False, self
+                    {**sources, self._id_: HashedValue(v)},
+                    used_as_condition and not bool(v),
+                    self,
                 )
         elif self._should_be_instantiated_:
             yield from self._instantiate_using_child_vars_and_yield_results_(sources)
@@ -1124,12 +1128,20 @@ class Variable(CanBehaveLikeAVariable[T]):
         :param value: The current value of this variable.
         :return: True if this variable is used as a condition and its value is falsy.
         """
-        used_as_condition = (
-            self._parent_ is None
-            or isinstance(self._parent_, (LogicalOperator, QueryObjectDescriptor))
-            or self is self._conditions_root_
+        return self._is_used_as_condition_ and not bool(value)
+
+    @property
+    def _is_used_as_condition_(self) -> bool:
+        """
+        :return: True if this variable stands where a condition stands in the position it is currently evaluated in.
+        """
+        parent = self._parent_
+        return (
+            parent is None
+            or isinstance(parent, LogicalOperator)
+            # the condition of a query, not one of its selected variables
+            or (isinstance(parent, QueryObjectDescriptor) and parent._child_ is self)
         )
-        return used_as_condition and not bool(value)
 
     @property
     def _name_(self):
@@ -1220,37 +1232,55 @@ class DomainMapping(CanBehaveLikeAVariable[T], ABC):
         self._eval_parent_ = parent
 
         if self._id_ in sources:
+            # the truth value of the current value in the current position, not the one remembered on this node from
+            # wherever it was evaluated last
+            self._is_false_ = self._is_used_as_condition_ and not bool(
+                sources[self._id_]
+            )
             yield OperationResult(sources, self._is_false_, self)
             return
 
+        # decided now: this generator may be resumed after the expression has been evaluated in another position
+        used_as_condition = self._is_used_as_condition_
         yield from (
             self._build_operation_result_and_update_truth_value_(
-                child_result, mapped_value
+                child_result, mapped_value, used_as_condition
             )
             for child_result in self._child_._evaluate__(sources, parent=self)
             for mapped_value in self._apply_mapping_(child_result[self._child_._id_])
         )
 
     def _build_operation_result_and_update_truth_value_(
-        self, child_result: OperationResult, current_value: Any
+        self,
+        child_result: OperationResult,
+        current_value: Any,
+        used_as_condition: bool,
     ) -> OperationResult:
         """
         Set the current truth value of the operation result, and build the operation result to be yielded.
 
         :param child_result: The current result from the child operation.
         :param current_value: The current value of this operation that is derived from the child result.
+        :param used_as_condition: Whether this expression stands where a condition stands.
         :return: The operation result.
         """
-        if (
-            isinstance(self._parent_, LogicalOperator)
-            or self is self._conditions_root_
-            or self._is_the_condition_of_its_query_
-        ):
-            self._is_false_ = not bool(current_value)
+        self._is_false_ = used_as_condition and not bool(current_value)
         return OperationResult(
             {**child_result.bindings, self._id_: current_value},
             self._is_false_,
             self,
+        )
+
+    @property
+    def _is_used_as_condition_(self) -> bool:
+        """
+        :return: True if this expression stands where a condition stands (an operand of a logical operator, or the
+         only condition of a query); as an operand of a comparator, an attribute access, a call, ... its value is a
+         value like any other, whatever its truth value.
+        """
+        return (
+            isinstance(self._parent_, LogicalOperator)
+            or self._is_the_condition_of_its_query_
         )
 
     @property
